@@ -307,6 +307,46 @@ Section Shape.
     eapply Forall_impl; [|exact Hb]. intros t. apply bshape_size.
   Qed.
 
+  (** ** the package's [verify()] (transcribed as [n_verify]) answers true *)
+  Lemma rev_seq_S m : rev (seq 0 (S m)) = m :: rev (seq 0 m).
+  Proof. rewrite seq_S, rev_app_distr. reflexivity. Qed.
+
+  Lemma bt_verify_ok t : hord cmp t -> bshape t -> bt_verify K V cmp t = true.
+  Proof.
+    induction t as [k v o cs IH] using btree_ind'. intros Hh Hs.
+    inversion Hh as [? ? ? ? Hk Hhc]; subst. inversion Hs as [? ? ? ? Hord Hsc]; subst.
+    simpl. set (i := 1). assert (Hi : 1 <= i) by (unfold i; lia).
+    assert (Hm : map ord cs = rev (seq 0 (S o - i))) by (unfold i; replace (S o - 1) with o by lia; exact Hord).
+    clearbody i. clear Hh Hs Hord. revert i Hi Hm.
+    induction cs as [|c cs IHcs]; intros i Hi Hm; [reflexivity|].
+    inversion IH as [|? ? IHc IHrest]; subst. inversion Hk as [|? ? Hkc Hkrest]; subst.
+    inversion Hhc as [|? ? Hhc1 Hhrest]; subst. inversion Hsc as [|? ? Hsc1 Hsrest]; subst.
+    destruct (S o - i) as [|m] eqn:Em; [discriminate|].
+    rewrite rev_seq_S in Hm. simpl in Hm. injection Hm as Hc Hrest.
+    assert (Hio : i <= o) by lia. assert (Hm' : m = o - i) by lia. subst m.
+    repeat (apply andb_true_iff; split).
+    - apply negb_true_iff. rewrite Z.gtb_ltb. apply Z.ltb_ge. exact Hkc.
+    - now apply Nat.leb_le.
+    - now apply Nat.eqb_eq.
+    - now apply IHc.
+    - apply IHcs; auto; try lia. replace (S o - S i) with (ord c) by lia. exact Hrest.
+  Qed.
+
+  Lemma orders_increase_ok l : incr l -> orders_increase K V l = true.
+  Proof.
+    unfold incr, ords. induction l as [|a [|b r] IH]; intros H; [reflexivity | reflexivity|].
+    simpl in H. inversion H as [|? ? Hs Hall]; subst. inversion Hall; subst.
+    change (orders_increase K V (a :: b :: r)) with ((ord a <? ord b) && orders_increase K V (b :: r)).
+    apply andb_true_iff. split; [now apply Nat.ltb_lt | now apply IH].
+  Qed.
+
+  Lemma n_verify_ok h : Forall (hord cmp) (n_head K V h) -> nshape h -> n_verify K V cmp h = true.
+  Proof.
+    intros Hh [Hi Hb]. unfold n_verify. apply andb_true_iff. split.
+    - now apply orders_increase_ok.
+    - apply forallb_forall. intros t Ht. rewrite Forall_forall in Hh, Hb. apply bt_verify_ok; auto.
+  Qed.
+
   Lemma n_merge_heaps_shape a b : nshape a -> nshape b -> nshape (n_merge_heaps K V cmp a b).
   Proof. intros [Hia Hba] [Hib Hbb]. unfold nshape; simpl. now apply n_union_shape. Qed.
 End Shape.
